@@ -104,8 +104,9 @@ def copyAddrs (h : Heap α) (src : Option BlockId) (ss : List Int) (dst : Option
   (ss.zip ds).foldl (fun h (sd : Int × Int) => h.copyCell src sd.1 dst sd.2) h
 
 /-- write a list of values to consecutive cells starting at `off` -/
-def writeList (h : Heap α) (dst : Option BlockId) (off : Nat) (vs : List α) : Heap α :=
-  ((List.range vs.length).zip vs).foldl (fun h (kv : Nat × α) => h.write dst (Int.ofNat (off + kv.1)) (some kv.2)) h
+def writeList (h : Heap α) (dst : Option BlockId) (off : Nat) : List α → Heap α
+  | [] => h
+  | v :: vs => writeList (h.write dst (Int.ofNat off) (some v)) dst (off + 1) vs
 
 end Heap
 
